@@ -192,6 +192,7 @@ def worker_init(repo):
     from . import nodes  # noqa
 
 
+@core.safe_worker
 def replay_chunk(lines):
     out = {"n": 0, "same": 0, "attention": [], "dropped": 0, "per_how": {}}
     for line in lines:
